@@ -181,6 +181,13 @@ static char *asm_read_file(char *asm_file) {
     // NOLINTNEXTLINE
     FAIL_SYS(true, "failed to get file stats\n", NULL);
   }
+  // a directory cannot be read as a file (some report a size of zero, which
+  // would otherwise pass for an empty file)
+  if (S_ISDIR(file_stat.st_mode)) {
+    close(fd);
+    fprintf(stderr, "assemblyline: %s is a directory\n", asm_file);
+    return NULL;
+  }
   size_t str_len = file_stat.st_size;
   char *str = malloc(str_len + 1);
   if (str == NULL) {
